@@ -80,6 +80,10 @@ def handleRefs (op : String) (args : List String) : String :=
     match p.toNat?, parseF32? bits with
     | some p, some num => showBits (Resvg.F32.rnd (Resvg.Writer.writeNumValue Resvg.F32.rnd p num))
     | _, _ => "bad-op"
+  | "esctext", [hex] =>
+    match optStr? ("=" ++ hex) with
+    | some (some str) => showInp.hexStr (String.ofList (Resvg.Writer.writeTextValue str.toList))
+    | _ => "bad-op"
   | "escattr", [q, hex] =>
     -- q: `d` (double quotes) or `s` (single quotes); hex: UTF-8 bytes of the string
     match optStr? ("=" ++ hex) with
